@@ -43,7 +43,7 @@ func c10Groups(tier string) []core.Group {
 	var gs []core.Group
 	for _, op := range []string{"Concat", "Stack", "Repeat"} {
 		for _, t := range c10Types(tier) {
-			for _, lay := range gen.RowLayouts {
+			for _, lay := range append(append([]string{}, gen.RowLayouts...), gen.LF) {
 				op, t, lay := op, t, lay
 				gs = append(gs, core.Group{Key: fmt.Sprintf("%s/%s/%s", op, model.Name(t), lay), Run: func(c *core.Ctx) {
 					switch op {
@@ -443,6 +443,13 @@ func c10Misfits(c *core.Ctx) {
 		{"concat-rank-differs", [][]int{{2, 3}, {3}}, 0, concat(0)},
 		{"concat-axis-out-of-range", [][]int{{2, 3}, {2, 3}}, 2, concat(2)},
 		{"concat-3d-middle-differs", [][]int{{2, 3, 2}, {2, 3, 3}}, 1, concat(1)},
+		// a mismatching extent of exactly 1 is a mismatch too (there is no broadcasting in concatenation)
+		{"concat-other-axis-is-one", [][]int{{2, 3}, {1, 3}}, 1, concat(1)},
+		{"concat-other-axis-is-one", [][]int{{2, 3}, {2, 1}}, 0, concat(0)},
+		{"concat-other-axis-is-one", [][]int{{1, 3}, {2, 3}}, 1, concat(1)},
+		{"concat-3d-other-axis-is-one", [][]int{{2, 3, 2}, {2, 1, 2}}, 2, concat(2)},
+		{"hstack-rows-one", [][]int{{2, 3}, {1, 3}}, 1, c10Call{"Hstack", func(ds []*tensor.Dense) (tensor.Tensor, error) { return ds[0].Hstack(ds[1:]...) }}},
+		{"vstack-cols-one", [][]int{{2, 3}, {2, 1}}, 0, c10Call{"Vstack", func(ds []*tensor.Dense) (tensor.Tensor, error) { return ds[0].Vstack(ds[1:]...) }}},
 		{"stack-shape-differs", [][]int{{2, 3}, {3, 2}}, 0, stack(0)},
 		{"stack-shape-differs", [][]int{{2, 3}, {2, 4}}, 1, stack(1)},
 		{"stack-rank-differs", [][]int{{2, 3}, {2, 3, 1}}, 0, stack(0)},
